@@ -12,7 +12,7 @@ const ID: &str = "C07";
 
 pub fn token_alphabet() -> Vec<&'static str> {
     vec![
-        "a", "b2", "1", "2.5", "0x1e", "1e", "\"/*\"", "\"//\"", "\"c:\\\\\"", "true", "+", "-", "*", "/", "%", "^", "<", ">", "=", "!", "==", "!=", "<=", ">=",
+        "a", "b2", "1", "2.5", "0x1e", "1e", "\"3\"", "\"/*\"", "\"//\"", "\"c:\\\\\"", "true", "+", "-", "*", "/", "%", "^", "<", ">", "=", "!", "==", "!=", "<=", ">=",
         "&&", "||", "+=", "-=", "*=", "/=", "%=", "^=", "&&=", "||=", "(", ")", ",", ";",
     ]
 }
